@@ -44,6 +44,7 @@ func H_C10_Crash() {
 	crashedAt := len(txs) // index of the in-flight transaction; len(txs): died after the last commit returned
 	if vEngine() {
 		vPowerLossMode(power)
+		vFewCuts(vParam("cuts") == 1)
 		vSetMsMode(vParam("msmode"))
 		alive := vTry(func() {
 			dbB, err := Open(optB)
@@ -60,16 +61,19 @@ func H_C10_Crash() {
 			vDisarm()
 		})
 		vDisarm()
-		if alive {
+		if alive && !power {
 			// no crash point was chosen on this path: nothing to check here (the clean path is C08's)
 			vReach("c10.no-crash")
 			vObserveInt("crashedAt", -1)
 			return
 		}
+		// power model: a path without a crash point ends with the power failing after the last Commit
+		// returned (crashedAt == len(txs)): everything committed with SyncEnable must survive
 		if power {
 			vPowerFail(dirB)
 		}
 		vPowerLossMode(false)
+		vFewCuts(false)
 		vSetMsMode(0)
 		vImageSave(dirB)
 		vObserveInt("crashedAt", crashedAt)
